@@ -5,6 +5,8 @@ use crate::util::Stats;
 use std::io::Write;
 
 pub mod url;
+pub mod entity;
+pub mod codepair;
 pub mod link;
 pub mod lines;
 pub mod alt;
@@ -48,6 +50,8 @@ pub type StreamFn = fn(n: usize, rng: &mut Rng, out: &mut Out);
 pub fn streams() -> Vec<(&'static str, StreamFn)> {
     vec![
         ("url", url::run as StreamFn),
+        ("entity", entity::run as StreamFn),
+        ("codepair", codepair::run as StreamFn),
         ("link", link::run as StreamFn),
         ("lines", lines::run as StreamFn),
         ("alt", alt::run as StreamFn),
